@@ -1266,6 +1266,54 @@ fn sentence_case(sink: &mut Sink, dict: &JapaneseDictionary, segs: &[Seg], fullw
     for f in fails {
         sink.fail(id, &format!("{:?}: {}", text, f), "");
     }
+    // every numeric segment also analysed on its own (the whole text is that segment)
+    if !fullwidth {
+        for s in segs {
+            match s {
+                Seg::Good(t, x) => pipeline_case(sink, dict, "", t, "", Some(x), false, "segment_alone", false),
+                Seg::Bad(t) => pipeline_case(sink, dict, "", t, "", None, false, "segment_alone", false),
+                Seg::Word(_) => {}
+            }
+        }
+    }
+}
+
+
+// ------------------------------------------------------------------------------------------------ whole texts of 0 / 1 / 2 tokens
+/// a text analysed with the numeral plugin and without any path-rewrite plugin must give the same tokens when it contains
+/// nothing the plugin may touch (here: a single token that is not a numeral, or the empty text)
+fn unchanged_case(sink: &mut Sink, with: &JapaneseDictionary, without: &JapaneseDictionary, text: &str, verbose: bool) {
+    let d = json!({"kind": "unchanged", "text": text});
+    sink.tag("pipeline:not_a_numeral_alone");
+    let id = sink.case_rust_only(d, false);
+    match (tokenize(with, text), tokenize(without, text)) {
+        (Ok(a), Ok(b)) => {
+            if verbose {
+                println!("with the numeral plugin   : {:?}", a);
+                println!("without path-rewrite plugins: {:?}", b);
+            }
+            let view = |v: &Vec<Tok>| v.iter().map(|t| (t.begin, t.end, t.surface.clone(), t.norm.clone(), t.pos.clone(), t.dic_form.clone(), t.reading.clone(), t.oov)).collect::<Vec<_>>();
+            if view(&a) != view(&b) {
+                sink.fail(id, &format!("{:?} is not a numeral, yet the numeral plugin changes its analysis: {:?} vs {:?}", text, view(&a), view(&b)), "");
+            }
+        }
+        (a, b) => {
+            if a.is_err() != b.is_err() {
+                sink.fail(id, &format!("{:?}: with plugin {:?}, without {:?}", text, a.err(), b.err()), "");
+            }
+        }
+    }
+}
+
+/// a numeral that is the WHOLE text (path of one node, or of a few), bare and with blanks around it, in every mode
+fn alone_cases(sink: &mut Sink, dict: &JapaneseDictionary, num: &str, expected: &str, tag: &str) {
+    for (pre, post) in [("", ""), (" ", ""), ("", " "), (" ", " ")] {
+        pipeline_case(sink, dict, pre, num, post, Some(expected), false, tag, false);
+        for mode in [Mode::A, Mode::B, Mode::C] {
+            subset_case(sink, dict, pre, num, post, Some(expected), ("all", 0x3ff), mode, tag, false);
+        }
+    }
+    subset_case(sink, dict, "", num, "", Some(expected), ("normalized_form", 1 << 3), Mode::C, tag, false);
 }
 
 fn fullwidth_some(s: &str, rng: &mut Rng) -> String {
@@ -1291,13 +1339,27 @@ pub fn numeric_dict(work: &Path) -> JapaneseDictionary {
     load_dict(&dic, &res, json!([{"class": "com.worksap.nlp.sudachi.JoinNumericPlugin", "enableNormalize": true}]))
 }
 
+/// the same dictionary without any path-rewrite plugin
+pub fn plain_dict(work: &Path) -> JapaneseDictionary {
+    let dic = compile_system(EXTRA_ROWS);
+    let res = resource_dir(work, "res_c15", "resources/char.def");
+    load_dict(&dic, &res, json!([]))
+}
+
 pub fn run(args: &Args) {
     let mut sink = Sink::new("C15", &args.out, &["Model.Numeric", "Model.NumericCanon"], args.seed, &args.tier);
-    sink.rule("(a) numeral parser via verif_parse_numeral vs Coq model: numerals generated FROM A VALUE (plain Arabic/kanji/mixed digits up to 150 digits, comma groups, fractions with trailing zeros, unit notation 十..兆 below 10^16 with optional/positional coefficients, fraction x unit, long digit string x large unit) with the expected rendering; near-miss malformed strings (bad comma groups, dangling/double points, swapped or repeated units) with the required error state; random strings over the numeral alphabet checked against an exact fixed-point reference ('never a wrong value'); (a') canonical writings of values 0 < n < 10^16 exactly as defined in Model/NumericCanon.v (per group kanji units with written / omitted 一 and kanji / Arabic coefficients, or Arabic digits + large unit): the Coq term rebuilds the string from the value; (a'') two non-zero groups with arbitrary large units (descending, repeated, increasing): accepted iff C15_unit_order_behaviour says so, value = sum; (b') sentences with several numerals: malformed groupings and stray separators before well-formed numerals, every well-formed numeral must be joined with the rendering of its value whatever preceded it; dictionary words that begin with a numeral character (四半期, 一人, 千葉, 万年筆 ...) directly after numerals; (b) the same numerals embedded in text and analysed with a dictionary tagging digits/units as numerals and JoinNumericPlugin: one token, normalised form = rendering; malformed: pieces only; (c) the pipeline cases repeated with a StatefulTokenizer restricted to 14 word-info field subsets (with / without NORMALIZED_FORM, POS_ID, SURFACE, ...) in modes A/B/C: same boundaries as with all fields, same normalised forms when requested, well-formed numeral = one token with the expected rendering.  non-trivial = more than one character (parser) / at least one merge (pipeline)");
+    sink.rule("(a) numeral parser via verif_parse_numeral vs Coq model: numerals generated FROM A VALUE (plain Arabic/kanji/mixed digits up to 150 digits, comma groups, fractions with trailing zeros, unit notation 十..兆 below 10^16 with optional/positional coefficients, fraction x unit, long digit string x large unit) with the expected rendering; near-miss malformed strings (bad comma groups, dangling/double points, swapped or repeated units) with the required error state; random strings over the numeral alphabet checked against an exact fixed-point reference ('never a wrong value'); (a') canonical writings of values 0 < n < 10^16 exactly as defined in Model/NumericCanon.v (per group kanji units with written / omitted 一 and kanji / Arabic coefficients, or Arabic digits + large unit): the Coq term rebuilds the string from the value; (a'') two non-zero groups with arbitrary large units (descending, repeated, increasing): accepted iff C15_unit_order_behaviour says so, value = sum; (b') sentences with several numerals: malformed groupings and stray separators before well-formed numerals, every well-formed numeral must be joined with the rendering of its value whatever preceded it; dictionary words that begin with a numeral character (四半期, 一人, 千葉, 万年筆 ...) directly after numerals; (b'') the numeral IS the whole text (paths of one node: single digits, kanji digits, 十 百 千; of a few nodes), bare and between blanks, modes A/B/C; sentence segments on their own; one-token texts that are not numerals and the empty text must be analysed as without the plugin; (b) the same numerals embedded in text and analysed with a dictionary tagging digits/units as numerals and JoinNumericPlugin: one token, normalised form = rendering; malformed: pieces only; (c) the pipeline cases repeated with a StatefulTokenizer restricted to 14 word-info field subsets (with / without NORMALIZED_FORM, POS_ID, SURFACE, ...) in modes A/B/C: same boundaries as with all fields, same normalised forms when requested, well-formed numeral = one token with the expected rendering.  non-trivial = more than one character (parser) / at least one merge (pipeline)");
     if let Some(p) = &args.replay {
         let v: Value = serde_json::from_str(&std::fs::read_to_string(p).unwrap()).unwrap();
         let c = &v["case"];
         let want = c["want_err"].as_u64().map(|x| x as u8);
+        if c["kind"] == "unchanged" {
+            let dict = numeric_dict(&args.work);
+            let plain = plain_dict(&args.work);
+            unchanged_case(&mut sink, &dict, &plain, c["text"].as_str().unwrap(), true);
+            sink.finish();
+            return;
+        }
         if c["kind"] == "sentence" {
             let dict = numeric_dict(&args.work);
             let mut r = Rng::new(args.seed);
@@ -1408,6 +1470,29 @@ pub fn run(args: &Args) {
         let sub = *rng.pick(&SUBSETS[..]);
         let mode = *rng.pick(&[Mode::A, Mode::B, Mode::C][..]);
         subset_case(&mut sink, &dict, pre, &text, post, Some(&n.expected), sub, mode, n.tag, false);
+    }
+    // the numeral IS the text: paths of one node (a single digit / kanji digit / unit) and of a few nodes, bare and between
+    // blanks, in every mode; expected form from the value (kanji_of of the values below 10, the units, small values)
+    for d in 0..10u32 {
+        alone_cases(&mut sink, &dict, &KANJI_DIGITS[d as usize].to_string(), &d.to_string(), "alone_one_node");
+        alone_cases(&mut sink, &dict, &d.to_string(), &d.to_string(), "alone_one_node");
+    }
+    for (t, e) in [("十", "10"), ("百", "100"), ("千", "1000")] {
+        alone_cases(&mut sink, &dict, t, e, "alone_one_node");
+    }
+    for n in [10u64, 11, 20, 2000, 2024, 10000, 100000000, 35000, 1000000000000] {
+        alone_cases(&mut sink, &dict, &canon_text(0, 0, n), &n.to_string(), "alone_few_nodes");
+        alone_cases(&mut sink, &dict, &canon_text(15, 0, n), &n.to_string(), "alone_few_nodes");
+    }
+    for _ in 0..args.n(60, 1500) {
+        let n = 1 + rng.next() % 10u64.pow(1 + rng.below(5) as u32);
+        let (kinds, styles) = (rng.below(16) as u32, rng.below(65536) as u32);
+        alone_cases(&mut sink, &dict, &canon_text(kinds, styles, n), &n.to_string(), "alone_few_nodes");
+    }
+    // ... and the other way round: a text that is one token and NOT a numeral (or empty, or two such tokens) is untouched
+    let plain = plain_dict(&args.work);
+    for t in ["", "京都", "に", "アイウ", "円", "四半期", "一人", "千葉", "万年筆", "万", "億", "兆", ",", ".", " ", "a", "と", "京都に", "に円", "万円", ",と", "四半期に", "東京都"] {
+        unchanged_case(&mut sink, &dict, &plain, t, false);
     }
     // several numerals in one sentence (state of the joining loop carried along the sentence)
     for segs in [
